@@ -13,8 +13,8 @@ META = {
     "rule": "history = prefix that produces a read-only or closed EKO + every word over 12 calls (5 store attempts); non-trivial = contains a store attempt; distinct by op/argument sequence",
 }
 
-PRE_RO = [H("create"), H("set", k="k1", v="a"), H("set", k="k2", v="e"), H("close"), H("drop"), H("read")]
-PRE_CLOSED_RW = [H("create"), H("set", k="k1", v="a"), H("close")]
+PRE_RO = [H("create"), H("recipe"), H("set", k="k1", v="a"), H("set", k="k2", v="e"), H("close"), H("drop"), H("read")]
+PRE_CLOSED_RW = [H("create"), H("recipe"), H("set", k="k1", v="a"), H("close")]
 PRE_CLOSED_EDIT = [H("create"), H("set", k="k1", v="a"), H("close"), H("drop"), H("edit"), H("set", k="k2", v="e"), H("close")]
 PRE_CLOSED_RO = PRE_RO + [H("get", k="k1"), H("close")]
 
